@@ -253,11 +253,16 @@ class Interp:
         if self.in_spec:
             raise EngineError("symbolic branch inside a specification")
         ce = cond.e
+        if hasattr(d, "decide"):
+            # domains without a solver (degree types, exact algebra) follow one generic path
+            dec = d.decide(self, ce)
+            self.decisions.append(dec)
+            return dec
         pos = len(self.decisions)
         if pos < len(self.prefix):
             dec = self.prefix[pos]
         else:
-            dec = d.decide(self, ce) if hasattr(d, "decide") else self._decide_z3(ce)
+            dec = self._decide_z3(ce)
         self.decisions.append(dec)
         import z3
         self.pc.append(ce if dec else z3.Not(ce))
@@ -311,6 +316,8 @@ class Interp:
         if isinstance(v, Arr):
             if v.is_list:
                 return self.branch(V.s_cmp(">", v.n, 0))
+            if V.is_conc(v.n) and v.n == 1:
+                return self.truth(v.get(0))
             raise RaiseSig("ValueError", "truth value of an array is ambiguous")
         if isinstance(v, Cx):
             return self.branch(V.b_not(V.s_eq(v, 0)))
@@ -321,6 +328,8 @@ class Interp:
     def truth(self, v):
         if isinstance(v, bool):
             return v
+        if isinstance(v, Arr) and not v.is_list and v.dtype == "bool" and V.is_conc(v.n) and v.n == 1:
+            v = v.get(0)
         if hasattr(v, "e") and not self.dom.is_scalar(v):
             return self.branch(v)
         return self.truthy_concrete(v)
@@ -632,6 +641,8 @@ class Interp:
             self.exec_stmt(st, frame)
 
     def exec_stmt(self, st, frame):
+        if hasattr(self.dom, "where"):
+            self.dom.where = "%s:%d" % (frame.module.name, st.lineno)
         m = getattr(self, "st_" + type(st).__name__, None)
         if m is None:
             raise Unsupported("statement %s (line %d)" % (type(st).__name__, st.lineno))
@@ -696,6 +707,16 @@ class Interp:
         raise RaiseSig("Exception", "raise of %r" % (v,))
 
     def st_Assert(self, st, frame):
+        d = self.dom
+        if hasattr(d, "decide"):
+            # no solver: an assertion is taken to hold on the generic path; what its test compares is
+            # recorded separately (a tolerance that does not scale with the data is a robustness note)
+            d.in_assert = True
+            try:
+                self.eval(st.test, frame)
+            finally:
+                d.in_assert = False
+            return
         c = self.eval(st.test, frame)
         if not self.truth(c):
             raise RaiseSig("AssertionError")
@@ -708,6 +729,14 @@ class Interp:
                 from . import loops
                 return loops.merge_if(self, st, c, frame)
             c = kn
+        if hasattr(self.dom, "decide") and hasattr(c, "e") and not self.dom.is_scalar(c):
+            # generic path: an arm that only raises is the exceptional one
+            rb = any(isinstance(x, ast.Raise) for x in st.body)
+            ro = any(isinstance(x, ast.Raise) for x in st.orelse)
+            if rb != ro:
+                self.decisions.append(not rb)
+                self.exec_block(st.orelse if rb else st.body, frame)
+                return
         if self.truth(c):
             self.exec_block(st.body, frame)
         else:
@@ -886,9 +915,14 @@ class Interp:
     def st_While(self, st, frame):
         n = 0
         limit = getattr(self.dom, "while_limit", 200)
+        forced = getattr(self.dom, "while_iters", None)
         while True:
             c = self.eval(st.test, frame)
-            if not self.truth(c):
+            if forced is not None and hasattr(c, "e") and not self.dom.is_scalar(c):
+                # no solver: a data dependent loop runs a fixed number of generic iterations
+                if n >= forced:
+                    break
+            elif not self.truth(c):
                 break
             n += 1
             if n > limit:
